@@ -76,6 +76,38 @@ PROPS = {
                  "'fails loudly': update_* are proved panic-free exactly when every referenced id has an image; the converse (a missing image panics rather than writing an index) is by inspection of the three `None => panic!` arms"],
         "design_ref": "DESIGN.md §4 V2 V3, §5 C09",
     },
+    "C12": {
+        "title": "Built functions appear exactly as built",
+        "units": ["V4_inject", "V1_locals"],
+        "obligations": ["V4_inject.FunctionBuilder.*", "V4_inject.fn:FunctionBuilder as Inject::inject", "V4_inject.Body.*", "V4_inject.fn:Body::push_op", "V4_inject.fn:Body::end",
+                        "V4_inject.fn:Instruction::new",
+                        "V1_locals.fn:FunctionBuilder as AddLocal::add_local", "V1_locals.add_local.*", "V1_locals.fn:add_local", "V1_locals.fn:lemma_*"],
+        "glue": ["FunctionBuilder::finish_module_with_tag / Module::add_local_func_with_tag (type lookup, id assignment) and the code-section emission loop in encode_internal are not under contract at this commit"],
+        "design_ref": "DESIGN.md §5 C12",
+        "level_text": "Builder half only: inject appends exactly the given operator at the end and nothing else changes, end() appends one `end`, add_local declares exactly the requested local at the returned index. Registration in the module and emission are glue.",
+    },
+    "C15": {
+        "title": "Before/after/alternate injection is lowered exactly",
+        "units": ["V4_inject"],
+        "obligations": ["V4_inject.InstrumentationFlag.*", "V4_inject.fn:InstrumentationFlag::*", "V4_inject.fn:Instruction::add_instr", "V4_inject.LocalFunction.*", "V4_inject.fn:LocalFunction::add_instr",
+                        "V4_inject.fn:Body::clear_instr", "V4_inject.fn:FunctionModifier as *"],
+        "glue": ["the emission order `before; alternate-or-instruction; after` and the final-`end` rule are ~60 lines inside Module::encode_internal: not under contract (a bounded Kani stand-in was infeasible: encode exceeds CBMC's memory)"],
+        "design_ref": "DESIGN.md §5 C15",
+        "level_text": "Accumulation half: for every injection API path the operator is appended to exactly the list of the active mode of exactly the addressed instruction; clearing removes exactly one mode's list. The order in which the lists are emitted is glue.",
+    },
+    "C22": {
+        "title": "Special-mode injections are never silently lost",
+        "units": ["V4_inject"],
+        "obligations": ["V4_inject.InstrumentationFlag.add_instr.*", "V4_inject.fn:InstrumentationFlag::add_instr", "V4_inject.is_block_style_op.*", "V4_inject.is_branching_op.*",
+                        "V4_inject.fn:InstrumentationFlag::is_block_style_op", "V4_inject.fn:InstrumentationFlag::is_branching_op",
+                        "V4_inject.FuncInstrFlag.*", "V4_inject.fn:FuncInstrFlag::add_instr", "V4_inject.fn:Instruction::add_instr",
+                        "V4_inject.LocalFunction.*", "V4_inject.fn:LocalFunction::add_instr",
+                        "V4_inject.FunctionModifier.*", "V4_inject.fn:FunctionModifier as *"],
+        "glue": ["ModuleIterator / ComponentIterator injection methods delegate to LocalFunction::add_instr (one match + call each): not under contract",
+                 "that has_special_instr == true suffices for resolution is the first `if` of Module::resolve_special_instrumentation (driver: not under contract)"],
+        "design_ref": "DESIGN.md §5 C22",
+        "level_text": "Every injection entry point under contract either requires the mode to be applicable to the instruction (the code panics otherwise = rejected at the call) or leaves has_special_instr == old || is_special(mode); proved for all instructions, modes and indices.",
+    },
     "C24": {
         "title": "Opcode helpers emit exactly the named instruction",
         "units": ["V9_opcode", "V9b_conv"],
